@@ -24,6 +24,12 @@ CLAIMS = {
  'C07': dict(engine='netmc', ref='DESIGN.md §2, §5 C07',
    text='Every environment schedule with <= d deviations (slow/partial client reads, short writes, would-block, delayed upstream close) of every scenario in which the proxy closes after producing output (400/404/407/502, static files up to 200 KiB over 4 KiB kernel buffers, relayed response followed by upstream close, early upstream response with failing upstream write) is executed in local, remote and threaded mode; bytes read by the client up to end-of-stream must equal the reference output (h11-valid) / everything the proxy read from the upstream, and the close must follow the last accepted byte within 4 loop iterations.',
    note=NETMC_NOTE, technique='stateless model checking of the implementation (deviation-bounded exhaustive schedule enumeration, three execution modes)'),
+ 'C02': dict(engine='netmc', ref='DESIGN.md §2, §5 C02',
+   text='Every request of a structured corpus (6 methods x 5 target forms x header sets incl. mixed case, OWS, empty values, hop-by-hop and proxy headers x framing none/Content-Length/chunked incl. empty, binary and framing-lookalike bodies, all chunk layouts of short bodies, hex forms and chunk extensions) is sent through the real forward proxy as first and as second request of a connection, with and without an operator-disabled header, under packings whole / single cuts / per byte; the origin parses what arrives with h11 and method, origin-form target, version, header multiset (minus proxy credentials, Proxy-Connection, disabled names; plus Via), single consistent framing and decoded body are compared with generator ground truth. All segmentations of the parser itself are covered by C03.',
+   note=NETMC_NOTE + ' No schedule deviations here (d=0): the quantifier is over inputs and segmentations.', technique='exhaustive small-scope input enumeration executed on the real event loop, independent parser (h11) as oracle'),
+ 'C06': dict(engine='netmc', ref='DESIGN.md §2, §5 C06',
+   text='Part 1: every sequence of <= L tokens (L=3 quick, L=4 thorough: 19^4 sequences) over a 19-token alphabet of methods, targets, versions, CRLF, length/encoding headers, garbage and non-UTF-8 bytes, plus request-shaped longer sequences and all truncations/concatenations of four valid requests, each under packings whole / per token / per byte and configurations proxy / proxy+web, is executed on the real executor; the outcome must be waiting (only if h11 saw no complete request), served, clean close, or exactly valid response(s) with end-of-stream after any error status. Part 2: every proxy-generated response over an argument grid (canned packets, okResponse, redirects, HttpRequestRejected, 407/502, websocket handshake, static files) is parsed by h11 and must be complete with no bytes beyond its framing.',
+   note=NETMC_NOTE + ' d=0 (input enumeration). Bodies for 204/304 rejections are excluded as caller error.', technique='bounded-exhaustive input enumeration (all token sequences up to length L) executed on the real event loop, h11 as oracle'),
  'C03': dict(engine='segmc', ref='DESIGN.md §1, §5 C03',
    text='All segmentations (every subset of cut positions) of every message of a structured small-scope corpus are explored on the real HttpParser/ChunkParser by explicit-state search with state merging; completion timing, fields, body and remainder are checked in every reachable state against generator ground truth.',
    note='Exhaustive within the corpus (message shapes, small bodies, all chunk layouts) -- not over all byte strings. Trusted: CPython, deepcopy state cloning, the generator ground truth.',
